@@ -24,6 +24,7 @@ type Config struct {
 	ExtraPreempt int
 	Solvers      []string
 	Verbose      bool
+	Race         bool
 }
 
 type workItem struct {
@@ -278,7 +279,7 @@ func (m *Machine) sample() map[string]any {
 func (w *Worker) newMachine(it *workItem) *Machine {
 	m := &Machine{w: w, p: w.ex.p, ts: w.ts, globals: map[*ssa.Global]*Cell{}, trail: it.trail, nameCount: map[string]int{},
 		maxSteps: w.ex.cfg.MaxSteps, sync: newSyncState(), reached: map[string]bool{}, funcsSeen: map[*ssa.Function]bool{},
-		harness: it.harness.String(), maxPreempt: w.ex.cfg.ExtraPreempt}
+		harness: it.harness.String(), maxPreempt: w.ex.cfg.ExtraPreempt, raceOn: w.ex.cfg.Race}
 	return m
 }
 
